@@ -48,7 +48,7 @@ def fold(operand_results, ops):
     return cur
 
 
-LOOKALIKES = [{}, [], {"a": 1}, [["a", 1]], "x", ["x"], [[]], {"a": []}, {"a": {}}, 7, "7", [7], None, [None], {"b": 2, "a": 1}, [["a", 1], ["b", 2]], "", [""], {"0": "x"}, [{"a": 1}], ["a", 1]]
+LOOKALIKES = [{"w": 0, "z": {"x": [2, {"p": 4, "q": 3}], "y": 1}}, {}, [], {"a": 1}, [["a", 1]], "x", ["x"], [[]], {"a": []}, {"a": {}}, 7, "7", [7], None, [None], {"b": 2, "a": 1}, [["a", 1], ["b", 2]], "", [""], {"0": "x"}, [{"a": 1}], ["a", 1]]
 
 
 async def _alist(p_, doc):
@@ -62,6 +62,8 @@ def run_scale(ctx):
         return ["q", "$", [["child", [["name", n]]] for n in names] + [["child", [["wild"]]]]]
     for n in (15, 16, 17, 63, 64, 65, 127, 129, 255, 257, 1025, 5000):
         some = [copy.deepcopy(v) for v in LOOKALIKES[1::2]]
+        # (and equal objects whose members were written in another order: the same JSON value)
+        some += [dict(reversed(list(v.items()))) for v in LOOKALIKES if isinstance(v, dict) and len(v) > 1] + [{"z": {"y": 1, "x": [2, {"q": 3, "p": 4}]}, "w": 0}]
         doc = {"L": copy.deepcopy(LOOKALIKES), "R": some + [1000 + i for i in range(n - len(some))], "M": [[i] for i in range(n)] + [[]]}
         for comp in ([Q("L"), ["&", Q("R")]], [Q("L"), ["&", Q("R")], ["|", Q("L")]], [Q("R"), ["&", Q("L")]], [Q("L"), ["|", Q("R")], ["&", Q("R")]], [Q("L"), ["&", Q("M")]], [Q("M"), ["&", Q("M")], ["&", Q("L")]], [Q("L"), ["&", Q("R")], ["&", Q("L")]]):
             text = Renderer(ctx.rng, plain=True).compound(comp)
